@@ -220,7 +220,7 @@ class Checker:
             if self.tvars and not any(t[1] in s for s in self.tvars):
                 self.report('C05', 'type-variable-out-of-scope', where,
                             'type variable %s is used outside the class/function that '
-                            'declares it' % t[1], t[1][:2])
+                            'declares it' % t[1], 'tvar')
             return
         if t[0] != 'P':
             return
@@ -653,7 +653,11 @@ class Checker:
         exp = expected if expected is not None else rec
         for br, s in ((e.true_branch, s_true), (e.false_branch, s_false)):
             bt = self.typeof(br, s, where, exp)
-            self.assignable(bt, exp, where, 'branch', br)
+            if expected is not None:
+                self.assignable(bt, exp, where, 'branch', br)
+            # without a context (receiver position, statement) a compiler types the
+            # conditional with the least upper bound of its branches; the recorded type is
+            # only the generator's hint and is reported as a diagnostic counter below
             if rec is not None and bt is not BOTTOM and bt is not None:
                 self.stats['cond_recorded_checked'] += 1
                 if self.sub(bt if bt[0] != 'W' else (bt[2] or bt), rec) is False:
